@@ -338,53 +338,6 @@ fn c11_read_slice() {
 	std::mem::forget(r);
 }
 
-//@ harness: c11_read_slice_6
-//@   props: C11, C04, C03
-//@   tier: thorough
-//@   kind: bounded(input length <= 6, max_alloc_size <= 6; n symbolic over all usize)
-//@   fn: de::read::ReadSlice::read_slice on ReaderRead (in-buffer visit vs scratch copy) vs SliceRead
-//@   domain: every input of length 0..=6, every requested length n (any usize), every refill size, max_alloc_size symbolic 0..=6
-//@   post: same bytes and consumption as the slice reader when Ok; never Ok where the slice reader fails; reader Err where slice is Ok only by the allocation cap (n > max_alloc_size and not already buffered); scratch never grows beyond max_alloc_size
-#[kani::proof]
-#[kani::unwind(9)]
-#[kani::stub(alloc::fmt::format, stub_format)]
-fn c11_read_slice_6() {
-	let buf: [u8; 6] = kani::any();
-	let len: usize = kani::any();
-	kani::assume(len <= 6);
-	let input = &buf[..len];
-	let n: usize = kani::any();
-	let mut s = SliceRead::new(input);
-	let a = s.read_slice(n, CopyVisitor);
-	let consumed_a = len - s.slice.len();
-	let k: usize = kani::any();
-	kani::assume(k >= 1 && k <= 6);
-	let mut r = ReaderRead::new(Chunked::regular(input, k));
-	let cap: usize = kani::any();
-	kani::assume(cap <= 6);
-	r.max_alloc_size = cap;
-	let b = r.read_slice(n, CopyVisitor);
-	let consumed_b = r.reader.consumed();
-	kani::cover!(b.is_ok() && n > k, "COV scratch path taken");
-	kani::cover!(b.is_ok() && n <= k && n > 0, "COV in-buffer path taken");
-	kani::cover!(b.is_err() && n > cap && n <= len, "COV allocation cap hit");
-	assert!(r.scratch.len() <= cap, "OBL C04.read_slice.scratch_bounded_by_max_alloc_size");
-	match (&a, &b) {
-		(Ok((x, lx)), Ok((y, ly))) => {
-			assert!(lx == ly && x[..n] == y[..n], "OBL C11.read_slice.same_bytes");
-			assert!(consumed_a == consumed_b, "OBL C11.read_slice.same_bytes_consumed");
-		}
-		(Err(_), Ok(_)) => assert!(false, "OBL C11.read_slice.reader_never_succeeds_where_slice_fails"),
-		(Ok(_), Err(_)) => {
-			assert!(n > cap, "OBL C11.read_slice.reader_err_only_by_alloc_cap");
-		}
-		(Err(_), Err(_)) => {}
-	}
-	std::mem::forget(a);
-	std::mem::forget(b);
-	std::mem::forget(r);
-}
-
 //@ harness: c11_read_slice_after_larger_read
 //@   props: C11, C03, C04, C01
 //@   tier: quick
